@@ -202,13 +202,16 @@ func (v *inputFieldDefaultInjectionVisitor) jsonWalker(fieldType int, defaultVal
 		if err != nil {
 			return
 		}
+		// every element occupies an index, whether or not we descend into it or fail on it
+		index := i
+		i++
 		if listOfList && dataType == jsonparser.Array {
 			newVal, replaced, err := v.processObjectOrListInput(typeDoc.Types[fieldType].OfType, value, typeDoc)
 			if err != nil {
 				return
 			}
 			if replaced {
-				*finalVal, err = jsonparser.Set(defaultValue, newVal, fmt.Sprintf("[%d]", i))
+				*finalVal, err = jsonparser.Set(defaultValue, newVal, fmt.Sprintf("[%d]", index))
 				defaultValue = *finalVal
 				if err != nil {
 					return
@@ -221,20 +224,14 @@ func (v *inputFieldDefaultInjectionVisitor) jsonWalker(fieldType int, defaultVal
 				return
 			}
 			if replaced {
-				*finalVal, err = jsonparser.Set(defaultValue, newVal, fmt.Sprintf("[%d]", i))
+				*finalVal, err = jsonparser.Set(defaultValue, newVal, fmt.Sprintf("[%d]", index))
 				defaultValue = *finalVal
 				if err != nil {
 					return
 				}
 				*finalValueReplaced = true
 			}
-		} else {
-			// not a value we descend into (null, scalar, mismatching kind): it still occupies
-			// an index, so keep i in step with the element position
-			i++
-			return
 		}
-		i++
 	}
 
 }
